@@ -242,8 +242,12 @@ void ScriptVM::loadTopGroup(EventSystem& eventSystem, const ScriptVariable& grou
 
     try
     {
-        for (uintptr_t i = array.arraysize(); i > 0; i--)
+        // same order as a command applied to the group
+        const bool forward = group.IsConstArray();
+        const uintptr_t count = array.arraysize();
+        for (uintptr_t n = 1; n <= count; n++)
         {
+            const uintptr_t i = forward ? n : count - n + 1;
             Listener* const listener = array.listenerAt(i);
             // like for commands, a member that is gone is skipped
             if (listener)
@@ -1581,7 +1585,10 @@ bool ScriptVM::Process(ScriptContext& context, uinttime_t interruptTime)
             }
             else if (foundTargetList->NumObjects() > 1)
             {
+                // the value is the group of objects that bear the name now, not the
+                // list inside the target table (which changes and can go away)
                 pTop.setContainerValue(foundTargetList);
+                pTop.CastConstArrayValue();
             }
             break;
         }
